@@ -106,6 +106,13 @@ def coverage(ctx):
             if isinstance(s, ast.Assign) and isinstance(s.targets[0], ast.Name) and isinstance(s.value, ast.Call) and call_name(s.value) == "getattr" and len(s.value.args) >= 2 \
                     and isinstance(s.value.args[0], ast.Name) and s.value.args[0].id == "self" and isinstance(s.value.args[1], ast.Constant):
                 held[s.targets[0].id] = [s.value.args[1].value, False]
+            elif isinstance(s, ast.Assign) and isinstance(s.targets[0], ast.Name) and isinstance(s.value, ast.Attribute) and isinstance(s.value.value, ast.Name) and s.value.value.id == "self":
+                held[s.targets[0].id] = [s.value.attr, False]
+            elif isinstance(s, ast.Assign) and isinstance(s.targets[0], ast.Attribute) and isinstance(s.targets[0].value, ast.Name) and s.targets[0].value.id == "self" \
+                    and isinstance(s.value, ast.Name) and s.value.id in held:
+                f, done = held[s.value.id]
+                if f == s.targets[0].attr and done:
+                    mult.append(f)
             elif isinstance(s, ast.AugAssign) and isinstance(s.op, ast.Mult) and isinstance(s.target, ast.Name) and s.target.id in held and isinstance(s.value, ast.Name) and s.value.id == "other":
                 held[s.target.id][1] = True
             elif isinstance(s, ast.Expr) and isinstance(s.value, ast.Call) and call_name(s.value) == "setattr" and len(s.value.args) == 3 and isinstance(s.value.args[1], ast.Constant) \
